@@ -3,11 +3,17 @@
 # applies a behaviour-preserving change to a scratch copy of /repo and runs every claimed check against it (VERIF_REPO / VERIF_OUT):
 # every check must stay green.  The scratch copy and the output directory are removed at the end; the one-line-per-check result is kept.
 cd "$(dirname "$0")/.."
-D=$(cd "$1" && pwd); TIER=${2:-quick}
+D=$(cd "$1" && pwd); TIER=${2:-quick}; V=$(pwd)
 W=$(mktemp -d /var/tmp/xrlv.benign.XXXXXX)
 rsync -a --exclude /.git --exclude /_build "${VERIF_REPO_BASE:-/repo}/" "$W/src/"
+if [ -f "$D/prepare.sh" ]; then
+  # a change that is produced rather than stored (e.g. a regenerated data file): the script runs in the scratch copy
+  ( cd "$W/src" && sh "$D/prepare.sh" "$V" ) || { echo "prepare.sh failed" > "$D/result.txt"; rm -rf "$W"; exit 2; }
+fi
+if [ -f "$D/patch.diff.gz" ] || [ -f "$D/patch.diff" ]; then
 if [ -f "$D/patch.diff.gz" ]; then gunzip -c "$D/patch.diff.gz" > "$W/patch.diff"; else cp "$D/patch.diff" "$W/patch.diff"; fi
 ( cd "$W/src" && git init -q && git apply --whitespace=nowarn "$W/patch.diff" ) || ( cd "$W/src" && patch -p1 -s < "$W/patch.diff" ) || { echo "patch does not apply" > "$D/result.txt"; rm -rf "$W"; exit 2; }
+fi
 rm -rf "$W/src/.git"
 # the checks run from a snapshot of the committed /verif (so that work in progress in the live directory cannot leak into the result)
 mkdir -p "$W/verif" && git archive HEAD | tar -x -C "$W/verif"
